@@ -16,6 +16,7 @@ import (
 	"net/http"
 	"net/http/httptest"
 	"net/netip"
+	"reflect"
 	"sort"
 	"strings"
 	"testing"
@@ -1262,7 +1263,14 @@ func plResultCoq(r *filtering.Result) string {
 		drw = vfOpt("drwresult", true, vfApp("mkDRW", vfN(uint64(d.RCode)), vfList("N * rrvalue", vals)))
 	}
 	return vfApp("mkResult", plReasonCoq(r.Reason), vfBool(r.IsFiltered), vfBytes(r.ServiceName), vfList("N * option addr", rules),
-		vfBytes(r.CanonName), vfList("addr", ips), drw)
+		vfBytes(r.CanonName), vfList("addr", ips), drw, vfBool(plCanonRewritten(r)))
+}
+
+// plCanonRewritten reads Result.CanonNameRewritten (/repo 2e58a5d) by name, so
+// that the harness still builds against a tree without the field.
+func plCanonRewritten(r any) bool {
+	f := reflect.Indirect(reflect.ValueOf(r)).FieldByName("CanonNameRewritten")
+	return f.IsValid() && f.Kind() == reflect.Bool && f.Bool()
 }
 
 // plSSCoq asks the (real) safe-search filter for its verdict on the query's
